@@ -178,6 +178,18 @@ def cases(tier: str, seed: int) -> list[dict]:
             # the dataset is asked for its key, USED (polygons, bounds, spatial index, centres, a clip), and asked again
             ev.append({"a": "Key", "edit": edits_for(w)[0], "route": "afteruse"})
             out.append({"src": "gen", "world": w, "events": ev})
+    # a mesh whose coordinate lists (node_coordinates, face_coordinates) are separated by two blanks: every variable named
+    # there belongs to the geometry, and an edit of the second one changes the key
+    for nodes_too in (True, False):
+      w = base_world("ugrid", rng)
+      w["enc"] = dict(w["enc"], coord_sep="  ", coord_sep_nodes=nodes_too)
+      fy = {"var": "Mesh2_face_y", "pos": 1, "value": 0, "dtype": "", "new": "", "key": "", "class": ""}
+      out.append({"src": "gen", "world": w, "events": [
+        {"a": "Key", "edit": edits_for(w)[0], "route": "inproc"}, {"a": "Key", "edit": edits_for(w)[0], "route": "copy"},
+        {"a": "Key", "edit": dict(fy, kind="EditGeomValue", pos=2, value=4545), "route": "inproc"},
+        {"a": "Key", "edit": dict(fy, kind="AttrAdd", key="comment", value="added"), "route": "copy"},
+        {"a": "Key", "edit": dict(fy, kind="ChangeGeomDtype", dtype="float32"), "route": "inproc"},
+        {"a": "Key", "edit": edits_for(w)[0], "route": "afteruse"}]})
     # curvilinear grids whose bounds have to be derived, with a cell flanked by cells without coordinates
     for conv in ("cf2d", "shoc_simple"):
         w = GW.structured_world(conv, 3, 3, shape="rect", bounds=False, holes=[(1, 0), (1, 2)])
